@@ -216,8 +216,39 @@ def updates_at(case, t):
     return case["update"] == "each" or t == case["T"] - 1 or (case.get("clear_at") is not None and t == case["clear_at"] - 1)
 
 
+def assign_delays(c, event, dt):
+    """the learned delays of a connection are RE-ASSIGNED while training is under way, the way a user or a delay-learning
+    rule does it: through the public `delay` setter, through the connection's updater (accumulate the difference, apply
+    it with `updatesome("delay")`), or in place on the parameter"""
+    new = (torch.tensor(event["delays"], dtype=torch.float64) * dt).reshape(c.delay.shape)
+    via = event.get("via", "setter")
+    if via == "setter":
+        c.delay = new
+    elif via == "updater":
+        diff = new - c.delay.detach()
+        c.updater.delay = (diff.clamp(min=0.0), (-diff).clamp(min=0.0))
+        c.updatesome("delay")
+    elif via == "inplace":
+        c.delay.copy_(new)
+    else:
+        raise ValueError(f"unknown way of assigning delays: {via}")
+
+
+def delay_segments(case):
+    """[(a, b, delays)]: the per-weight delays (in steps) in force during the steps a..b-1 of the run"""
+    segs, a, cur = [], 0, case["delays"]
+    for e in sorted(case.get("redelay") or [], key=lambda e: e["at"]):
+        if e["at"] > a:
+            segs.append((a, e["at"], cur))
+            a = e["at"]
+        cur = e["delays"]
+    segs.append((a, case["T"], cur))
+    return segs
+
+
 def run_real(case):
     """→ {'steps': [(pos, neg, weight|None)], 'w0': …} or {'exc': …, 'step': t, 'steps': …}.
+    With `redelay = [{at, delays, via}]` the connection's delays are re-assigned before step `at` (assign_delays).
     With `clear_at = t0` the run is two EPISODES: after step t0-1 the weights are updated, then
     `trainer.clear(keepshape=clear_keep)` and `synapse.clear()` are called before step t0."""
     torch.set_default_dtype(torch.float64)
@@ -232,6 +263,9 @@ def run_real(case):
                 if case.get("clear_at") == t:
                     tr.clear(keepshape=True) if case.get("clear_keep") else tr.clear()
                     layer.connection.synapse.clear()
+                for e in case.get("redelay") or []:
+                    if e["at"] == t:
+                        assign_delays(layer.connection, e, case["params"]["dt"])
                 x = bits_tensor(case["pre"][t], inshape)
                 o = bits_tensor(case["post"][t], outshape).bool()
                 layer(x, neuron_kwargs={"override": o})
@@ -350,6 +384,8 @@ def request_lines(case):
     """driver requests of a case: one per weight — per episode when the run is cleared at `clear_at`
     (first all weights of episode 1, then all weights of episode 2); and the per-weight train strings"""
     t0 = case.get("clear_at")
+    if case.get("redelay"):
+        return request_lines_redelay(case)
     if t0 is None:
         return request_lines1(case)
     l1, _ = request_lines1(episode_slice(case, 0, t0))
@@ -357,7 +393,42 @@ def request_lines(case):
     return l1 + l2, request_lines1(case)[1]
 
 
-def request_lines1(case):
+def is_delayed(case):
+    return case["delaymode"] == "delayed" and case["D"] > 0
+
+
+def plain(case, **over):
+    c = dict(case, **over)
+    c.pop("redelay", None)
+    return c
+
+
+def request_lines_redelay(case):
+    """Delays re-assigned mid-run.  The property shifts presynaptic spike times by THE SYNAPSE'S delay, i.e. the one in force
+    at the step in question.
+    'delayed' trainer mode (raw presynaptic history kept, looked up through the current delays): the contribution of step
+    t is that of step t of the constant-delay history with the delay d(t) — one request per stretch of constant delays
+    (history up to the stretch's end), of which `expected_tables` keeps the stretch's own steps.
+    delay-frozen mode (the trainer records what the synapse hands on): the synapse hands on pre(t - d(t)) at step t (C06);
+    the pair sum is that of this arriving train — one request per weight with its own arriving train and delay 0."""
+    raw = request_lines1(plain(case))[1]
+    if is_delayed(case):
+        lines = []
+        for a, b, dl in delay_segments(case):
+            lines += request_lines1(episode_slice(plain(case, delays=dl), 0, b))[0]
+        return lines, raw
+    T, B = case["T"], case["B"]
+    pre, _ = trains(case)
+    dmat = [[0] * T for _ in case["delays"]]
+    for a, b, dl in delay_segments(case):
+        for w, d in enumerate(dl):
+            for t in range(a, b):
+                dmat[w][t] = d
+    arriving = [[["".join(x[t - dw[t]] if t - dw[t] >= 0 else "0" for t in range(T)) for x in pre[b]] for b in range(B)] for dw in dmat]
+    return request_lines1(plain(case, delays=[0] * len(dmat)), pre_by_weight=arriving)[0], raw
+
+
+def request_lines1(case, pre_by_weight=None):
     """one driver request per weight; also the per-weight train strings (for reports)"""
     p, T, B = case["params"], case["T"], case["B"]
     pre, post = trains(case)
@@ -378,6 +449,8 @@ def request_lines1(case):
     head += [tf(p["nearest"]), tf(delayed), str(case["D"]), case["red"]]
     lines, tstr = [], []
     for w, fld in enumerate(fields):
+        if pre_by_weight is not None:
+            pre = pre_by_weight[w]
         tr = ";".join(",".join(f"{pre[b][i]}:{post[b][o]}" for i, o in fld) for b in range(B))
         tstr.append(tr)
         tail = [str(case["delays"][w]), str(T), tr]
@@ -411,6 +484,15 @@ def expected_tables(case, resp):
     """from the driver's responses: per stream ('M','S') arrays [nw, T] of per-step pos/neg (+ masks);
     the two episodes of a cleared run are concatenated in time"""
     t0 = case.get("clear_at")
+    if case.get("redelay"):
+        if not is_delayed(case):
+            return expected_tables(plain(case), resp)
+        segs = delay_segments(case)
+        nw = len(resp) // len(segs)
+        parts = [expected_tables(episode_slice(plain(case, delays=dl), 0, b), resp[k * nw:(k + 1) * nw])
+                 for k, (a, b, dl) in enumerate(segs)]
+        return {name: [np.concatenate([pt[name][k][:, a:b] for pt, (a, b, _) in zip(parts, segs)], axis=1) for k in range(4)]
+                for name in ("M", "S")}
     if t0 is not None:
         nw = len(resp) // 2
         a = expected_tables(episode_slice(case, 0, t0), resp[:nw])
@@ -501,6 +583,8 @@ def synapse_case(case, w, tstr):
     c.update({"conn": "dense", "geom": {"nin": 1, "nout": 1}, "delays": [case["delays"][w]],
               "pre": [[per_b[b][0][t] for b in range(B)] for t in range(T)],
               "post": [[per_b[b][1][t] for b in range(B)] for t in range(T)]})
+    if case.get("redelay"):
+        c["redelay"] = [dict(e, delays=[e["delays"][w]]) for e in case["redelay"]]
     return c
 
 
@@ -509,7 +593,9 @@ def describe(case, w, tstr):
             "delay_mode": case["delaymode"], "delay_steps_of_this_weight": case["delays"][w], "max_delay_steps": case["D"],
             "batch": case["B"], "reduction": case["red"], "update": case["update"], "signal": case["signal"],
             "weight_index": w, "history(pre:post per field element, ';' between batch samples)": tstr,
-            "trainer_cleared_before_step": case.get("clear_at"), "clear_keepshape": case.get("clear_keep")}
+            "trainer_cleared_before_step": case.get("clear_at"), "clear_keepshape": case.get("clear_keep"),
+            "delay_steps_of_this_weight_reassigned": [{"before_step": e["at"], "to": e["delays"][w], "via": e.get("via", "setter")}
+                                                      for e in case.get("redelay") or []]}
 
 
 class Runner:
@@ -526,7 +612,8 @@ class Runner:
         if family not in self.sampled and case["conn"] != "dense" or (family not in self.sampled and case["geom"].get("nin", 9) <= 4):
             self.sampled.add(family)
             self.ex.samples.append({"family": family, **{k: case[k] for k in ("variant", "params", "conn", "geom", "B", "T", "delaymode",
-                                                                               "delays", "red", "update", "pre", "post", "signal")}})
+                                                                               "delays", "red", "update", "pre", "post", "signal")},
+                                    **({"redelay": case["redelay"]} if case.get("redelay") else {})})
 
     def add_multi(self, mc, family):
         self.multis.append((mc, family))
@@ -629,11 +716,15 @@ class Runner:
                 ex.count("episodes", "clear(keepshape=True)" if case.get("clear_keep") else "clear()")
             cfgkey = (case["variant"], tuple(sorted(p.items())), case["delaymode"], case["red"], case["B"], repr(case["signal"]),
                       case.get("clear_at"), case.get("clear_keep"))
+            for e in case.get("redelay") or []:
+                ex.count("delays_reassigned_via", e.get("via", "setter"))
+            if case.get("redelay"):
+                ex.count("delays_reassigned_in_mode", f"{kind}:{case['delaymode']}")
             for w, s in enumerate(tstr):
                 pre_any = any("1" in x.split(":")[0] for f in s.split(";") for x in f.split(","))
                 post_any = any("1" in x.split(":")[1] for f in s.split(";") for x in f.split(","))
                 if pre_any and post_any:
-                    ex.nontriv((cfgkey, case["delays"][w], s))
+                    ex.nontriv((cfgkey, case["delays"][w], s, tuple((e["at"], e["delays"][w]) for e in case.get("redelay") or [])))
         if "exc" in real:
             key = f"C08:raises:{kind}:{case['delaymode']}"
             if len([f for f in ex.findings if f.key == key]) < 2:
@@ -661,6 +752,8 @@ class Runner:
             stream = "explicit sum over spike pairs (S)" if name == "S" else "recurrence model (M)"
             ex.findings.append(Finding(kindf, key, f"{what} after step {t}: real {obs} vs {stream} {exp} "
                                        f"[{case['variant']} {case['conn']} delay={case['delaymode']} k={case['delays'][w]} history {tstr[w]}" +
+                                       "".join(f"; delay re-assigned to k={e['delays'][w]} before step {e['at']} via {e.get('via', 'setter')}"
+                                               for e in case.get("redelay") or []) +
                                        (f"; trainer.clear({'keepshape=True' if case.get('clear_keep') else ''}) before step {case['clear_at']}]"
                                         if case.get("clear_at") is not None else "]"),
                                        {"case": rep, "weight": info, "step": t, "expected": exp, "observed": obs, "stream": name}))
@@ -675,6 +768,8 @@ class Runner:
             s = dict(c["signal"])
             s["v"] = [1.0, 1.0] if s["mode"] == "scalar" else [[1.0], [1.0]]
             c["signal"] = s
+        if case.get("redelay"):
+            c["redelay"] = [{"at": 1, "delays": [0 if c["delays"][0] else min(1, case["D"])], "via": case["redelay"][0].get("via", "setter")}]
         return c if "exc" in run_real(c) else case
 
 
@@ -835,13 +930,58 @@ def explore(ctx) -> Exploration:
     R.add_multi(probe_mstdpet_trace_tag(), "multi-cell-probe")
     R.flush()
 
+    # (6) DELAYS RE-ASSIGNED MID-RUN (what delay learning does): after the trainer has already stepped, the connection's
+    #     delays are given new values through the `delay` setter, through the updater or in place; from then on every
+    #     step's contribution must be the pair sum with the presynaptic times shifted by the NEW delays
+    nrd = 150 if heavy else 54
+    vias = ["setter", "updater", "setter", "inplace", "updater", "setter"]
+    for r in range(nrd):
+        v = ["stdp", "mstdp-s", "triplet", "stdp", "mstdp-t", "stdp", "mstdpet-s", "triplet", "mstdpet-t"][r % 9]
+        dm = "frozen" if v.startswith("mstdpet") else ("delayed" if rng.random() < 0.8 else "frozen")
+        one = r % 3 != 2
+        if one:
+            conn, geom, B = "dense", {"nin": 1, "nout": 1}, rng.choice([1, 1, 2])
+        else:
+            conn = rng.choice(["dense", "dense", "direct", "lateral", "conv"])
+            if conn == "dense":
+                geom = {"nin": rng.randint(1, 3), "nout": rng.randint(1, 3)}
+            elif conn == "conv":
+                geom = {"H": rng.randint(2, 3), "W": rng.randint(2, 3), "C": rng.randint(1, 2), "F": rng.randint(1, 2),
+                        "K": rng.choice([1, 2]), "stride": 1}
+            else:
+                geom = {"n": rng.randint(2, 3)}
+            B = rng.choice([1, 2, 3])
+        T = rng.randint(7, 11)
+        D = rng.choice([1, 2, 3])
+        case = make_case(rng, v, SIGNS[rng.randrange(4)], rng.random() < 0.5, dm, conn, geom, B, T,
+                         rng.choice(["sum", "mean"]), rng.choice(["each", "end"]), D=D)
+        if one:     # dense activity so that old and new shifts give different pair sums
+            case["pre"] = [["1" if rng.random() < 0.6 else "0" for _ in range(B)] for _ in range(T)]
+            case["post"] = [["1" if rng.random() < 0.7 else "0" for _ in range(B)] for _ in range(T)]
+        nw = len(case["delays"])
+        ats = sorted(rng.sample(range(1, T - 2), rng.choice([1, 1, 2])))
+        cur, events = case["delays"], []
+        for k, at in enumerate(ats):
+            new = [rng.choice([d for d in range(D + 1) if d != c]) if (w == 0 or rng.random() < 0.7) else c for w, c in enumerate(cur)]
+            if conn == "lateral":
+                n = geom["n"]
+                new = [0 if (i // n) == (i % n) else d for i, d in enumerate(new)]
+            events.append({"at": at, "delays": new, "via": vias[(r + k) % len(vias)]})
+            cur = new
+        case["redelay"] = events
+        R.add(case, "delays-reassigned-mid-run")
+    R.flush()
+
     ex.rule = ("(1) every pre/post spike history of a 1x1 dense cell of length T (quick 5, thorough 7; comparisons after every step cover all "
                "shorter histories), trainer variant / sign mode / trace mode / delay mode rotating over the histories; (2) a dense 2^T x 2^T "
                "layer in which synapse (i -> j) carries pre history i and post history j, once per configuration; (3) random histories on "
                "dense / direct / lateral / conv cells with batches 1-4, sum / mean reductions, per-synapse delays, scalar and per-sample "
                "signals, update() every step or at the end; (4) two-episode runs separated by update() + trainer.clear(keepshape=True|False) + "
                "synapse.clear(), the second episode judged against the pair sum of its own spikes; (5) one trainer with two cells sharing a "
-               "postsynaptic group or a connection and different per-cell overrides, each cell judged against its own pair sum.  One case = one weight's run; non-trivial = at least one pre and one post "
+               "postsynaptic group or a connection and different per-cell overrides, each cell judged against its own pair sum; (6) runs in which the connection's delays are re-assigned once or twice AFTER the trainer "
+               "has stepped (through the `delay` setter, through the updater, or in place), every later step judged against the pair sum with "
+               "the presynaptic times shifted by the delays then in force ('delayed' mode; in the delay-frozen mode against the pair sum of the "
+               "train the synapse hands on).  One case = one weight's run; non-trivial = at least one pre and one post "
                "spike in its receptive field; distinct = distinct (configuration, delay, history)")
     return ex
 
